@@ -73,6 +73,10 @@ Section Validation.
   Variable pos0 : F -> bool.          (* 0 < x *)
   Variable isz : F -> bool.           (* x = 0 *)
   Variable bwF : mapid -> F -> F.     (* backward on finite non-special values *)
+  (* float range: [ovf m x = Some s] says that backward of the FINITE value x
+     over- or underflows to the special s (10**400 = inf, 10**-400 = 0.0, ...);
+     None = representable.  Ideal reals: never (no_ovf). *)
+  Variable ovf : mapid -> F -> option (xval F).
   Variable zero : F.
 
   (* np.real(v) > 0.0 *)
@@ -88,9 +92,13 @@ Section Validation.
     match v with
     | NaN => NaN
     | Fin x =>
-        match m with
-        | MResistivity => if isz x then PInf else Fin (bwF m x)
-        | _ => Fin (bwF m x)
+        match ovf m x with
+        | Some s => s
+        | None =>
+            match m with
+            | MResistivity => if isz x then PInf else Fin (bwF m x)
+            | _ => Fin (bwF m x)
+            end
         end
     | NegZero =>
         match m with
@@ -207,6 +215,7 @@ End Coefficients.
 
 (* ------------------------------------------------------------------------ *)
 (* Instances of the validation model. *)
+Definition no_ovf {F : Type} : mapid -> F -> option (xval F) := fun _ _ => None.
 Definition Rpos0 (x : R) : bool := if Rlt_dec 0 x then true else false.
 Definition Risz (x : R) : bool := if Req_EM_T x 0 then true else false.
 
@@ -229,9 +238,24 @@ From Coq Require Import QArith.
 From V Require Import Base.ExecQ.
 Definition Qpos0 (q : Q) : bool := match Qnum q with Zpos _ => true | _ => false end.
 Definition Qisz (q : Q) : bool := Z.eqb (Qnum q) 0.
-Definition check_pf_Q := @check_pf Q Qpos0 Qisz (@bw_exec Q QOps) 0%Q.
-Definition model_init_Q := @model_init Q Qpos0 Qisz (@bw_exec Q QOps) 0%Q.
-Definition model_set_Q := @model_set Q Qpos0 Qisz (@bw_exec Q QOps) 0%Q.
+(* IEEE double range of 10**x and exp(x), by hand (tied by correspondence; the
+   generators stay 2 away from the thresholds): 10**x = inf for x >= 309,
+   = 0.0 for x <= -324; exp(x) = inf for x >= 710, = 0.0 for x <= -746; the
+   resistivity maps exponentiate -x. *)
+Definition ovf_range (hi lo : Q) (y : Q) : option (xval Q) :=
+  if Qle_bool hi y then Some PInf
+  else if Qle_bool y lo then Some (Fin 0%Q) else None.
+Definition ovf_exec (m : mapid) (x : Q) : option (xval Q) :=
+  match m with
+  | MLgConductivity => ovf_range 309 (-324) x
+  | MLgResistivity => ovf_range 309 (-324) (- x)
+  | MLnConductivity => ovf_range 710 (-746) x
+  | MLnResistivity => ovf_range 710 (-746) (- x)
+  | _ => None
+  end%Q.
+Definition check_pf_Q := @check_pf Q Qpos0 Qisz (@bw_exec Q QOps) ovf_exec 0%Q.
+Definition model_init_Q := @model_init Q Qpos0 Qisz (@bw_exec Q QOps) ovf_exec 0%Q.
+Definition model_set_Q := @model_set Q Qpos0 Qisz (@bw_exec Q QOps) ovf_exec 0%Q.
 
 (* harness helpers for the correspondence (run a history of assignments) *)
 Definition run_sets (md : model (F:=Q)) (ops : list (pname * list (xval Q)))
